@@ -32,6 +32,8 @@ deriving DecidableEq, Repr
 
 def Variant.repaired : Variant := ⟨true, true, true, true, true⟩
 def Variant.asFound : Variant := ⟨false, false, false, false, false⟩
+/-- Shorthand used by the lemma and theorem files. -/
+abbrev R : Variant := Variant.repaired
 
 /-- What one scripted round trip yields. -/
 inductive Outcome
